@@ -43,11 +43,11 @@ func init() {
 			return 1280
 		},
 		Batches: func(t string) int { return 16 },
-		Rule: fmt.Sprintf("each case = %d generated values of the type family (all int/uint widths, bool, string, []byte, byte/int arrays, *big.Int, HexInt, nested structs with embedded and unexported fields, pointers nil/non-nil, slices nil/empty/long, maps with string/int/uint keys incl. nested, types with RLPEncodeSelf/BinaryMarshaler/MarshalRLP codecs, TypedObj trees) encoded (every third one right after a REJECTED encode on the shared codec: nested MarshalBinary/RLPEncodeSelf/MarshalRLP error, chan/func inside a struct/list, bad map key nested or top-level; the pooled result is compared with a fresh non-pooled encoder), encoded again, decoded and compared (numbers, bytes, nil-ness of every slice/map/pointer); maps rebuilt in another insertion order must encode to the same bytes and their keys must be strictly ascending when the encoding is read by the harness's own RLP reader; + %d hostile inputs (random bytes, mutated valid encodings, truncations, size fields up to 2^64-1 with few bytes following, non-minimal headers, nesting up to 350 (thorough 1050)) decoded into a family type and through UnmarshalAny: no panic, a fixed canary value encoded right afterwards (half of the time after a further rejected encode) gives the bytes it gave at process start and its encoding decoded right afterwards still yields its value (no decoder state kept between calls), truncated top-level item => error, bounded allocation, and an accepted input must re-encode and decode to the same value; + %d crafted integers per case: an integer byte string is accepted only if the decoded value equals the encoded number (no overflow/truncation for int8..int64, uint8..uint64, bool), in-range minimal encodings are accepted; + %d MarshalAny/UnmarshalAny trees. Non-trivial = distinct (type, encoding) with a list or >= 3 bytes.", nRoundTrip, nHostile, nOverflow, nAny),
+		Rule: fmt.Sprintf("each case = %d generated values of the type family (all int/uint widths, bool, string, []byte, byte/int arrays, *big.Int, HexInt, nested structs with embedded and unexported fields, pointers nil/non-nil, slices nil/empty/long, maps with string/int/uint keys incl. nested, types with RLPEncodeSelf/BinaryMarshaler/MarshalRLP codecs, TypedObj trees) encoded (every third one right after a REJECTED encode on the shared codec: nested MarshalBinary/RLPEncodeSelf/MarshalRLP error, chan/func inside a struct/list, bad map key nested or top-level; the pooled result is compared with a fresh non-pooled encoder), encoded again, decoded and compared (numbers, bytes, nil-ness of every slice/map/pointer); maps rebuilt in another insertion order must encode to the same bytes and their keys must be strictly ascending when the encoding is read by the harness's own RLP reader; + %d hostile inputs (random bytes, mutated valid encodings, truncations, size fields up to 2^64-1 with few bytes following, non-minimal headers, nesting up to 350 (thorough 1050)) decoded into a family type and through UnmarshalAny: no panic, a fixed canary value encoded right afterwards (half of the time after a further rejected encode) gives the bytes it gave at process start and its encoding decoded right afterwards still yields its value (no decoder state kept between calls), truncated top-level item => error, bounded allocation, and an accepted input must re-encode and decode to the same value; + %d crafted integers per case: an integer byte string is accepted only if the decoded value equals the encoded number (no overflow/truncation for int8..int64, uint8..uint64, bool), in-range minimal encodings are accepted; + %d MarshalAny/UnmarshalAny trees. In every 20th case of a batch 4 goroutines concurrently marshal/unmarshal their own values (64-512 KiB payload structs, generator values, any-trees) through codec.BC, codec.RLP, codec.MP and MarshalAny, once pinned to one P and once with the child's GOMAXPROCS; each result must equal the bytes computed single-threaded beforehand and decode back. Non-trivial = distinct (type, encoding) with a list or >= 3 bytes.", nRoundTrip, nHostile, nOverflow, nAny),
 		MinNonTrivial: func(t string) int { return 50000 },
 		Required: []string{"roundtrip_values", "encode_twice_equal", "map_order_checked", "map_rebuilt_equal", "nil_slices", "empty_slices", "nil_maps", "empty_maps", "nil_pointers",
 			"long_payloads", "hostile_inputs", "hostile_rejected", "hostile_accepted", "hostile_reencode_checked", "top_truncated_rejected", "alloc_guard_checked",
-			"overflow_rejected", "int_in_range_accepted", "any_roundtrips", "any_hostile", "stream_api_roundtrips", "custom_codec_values", "canary_decodes", "canary_encodes", "rejected_encodes", "sequences_rejected_encode_then_roundtrip",
+			"overflow_rejected", "int_in_range_accepted", "any_roundtrips", "any_hostile", "stream_api_roundtrips", "custom_codec_values", "canary_decodes", "canary_encodes", "concurrent_marshals", "concurrent_large_payload_marshals", "concurrent_unmarshals", "concurrent_marshalany", "concurrent_mp_marshals", "concurrent_phases_one_p", "concurrent_phases_default_p", "rejected_encodes", "sequences_rejected_encode_then_roundtrip",
 			"rejected_encode_nested-MarshalBinary-error", "rejected_encode_nested-RLPEncodeSelf-error", "rejected_encode_chan-in-struct", "rejected_encode_bad-map-key-nested", "rejected_encode_deep-list-MarshalBinary-error"},
 		Assumptions: []string{
 			"Go reflect/math/big and the harness's own RLP header reader are the reference",
@@ -883,6 +883,10 @@ func run(c *ev.Ctx) {
 		}
 		for i := 0; i < nAny && !c.Stopped(); i++ {
 			k.anyTree(i)
+		}
+		// every 20th case of a batch: the shared codec used by several goroutines at once
+		if (ci/c.NBatches)%20 == 0 && !c.Stopped() {
+			k.concurrent()
 		}
 	})
 }
